@@ -110,6 +110,15 @@ Proof. intros g q vt dd D so Hvt Hnd HR Hso. split; [intros v; apply config_get_
   split; [apply config_get_degree_sum_refines; assumption|]. rewrite nonneg_off_vtilde. apply config_is_non_negative_refines; assumption. Qed.
 Print Assumptions C10_source_config_readers.
 
+(* the constructor CFConfig(divisor, q), translated from the CURRENT source: refused exactly when q is not a vertex; otherwise the configuration remembers q and the
+   duplicate-free set V - {q}, i.e. the hypotheses of C10_source_config_readers hold for every constructed configuration *)
+Theorem C10_source_config_constructor : forall n vs dd q, rep_vset n vs -> NoDup vs ->
+  match CFConfigMoves___init__ vs dd q with
+  | PyOk (qv, vt) => Nat.ltb q n = true /\ qv = q /\ rep_vtilde n q vt /\ NoDup vt
+  | PyExn _ => Nat.ltb q n = false end.
+Proof. exact config_ctor_refines. Qed.
+Print Assumptions C10_source_config_constructor.
+
 (* ---- bounded identities (complete finite domains, kernel computation) ---- *)
 (* K_(n+1), n <= 4, sink 0: a configuration in the box [0..n]^n is superstable iff shifting it up by one gives a parking function *)
 Theorem C10_superstables_of_Kn_are_parking_functions_bounded : forallb (fun n =>
